@@ -10,11 +10,14 @@ import Mathlib.Algebra.Order.Field.Rat
 import Mathlib.Data.Rat.Cast.Defs
 import Mathlib.Data.Rat.Floor
 import Mathlib.Tactic.IntervalCases
+import Mathlib.Tactic.SplitIfs
+import Mathlib.Tactic.Linarith
 import PyModeS.Generated.Src.py_common
 import PyModeS.Proofs.CRC.HexStr
 import PyModeS.Model.Commb
 
 set_option linter.style.nameCheck false
+set_option linter.unusedSimpArgs false
 namespace PyModeS.Tie
 open PyModeS PyModeS.Py PyModeS.CRC
 
@@ -389,5 +392,49 @@ theorem wrongstatus_ofBits (d : Bits) (sb msb lsb : Nat) (h1 : 1 ≤ sb) (h2 : 1
     | val v =>
       simp only [Res.bind_val]
       cases s <;> by_cases hz : v = 0 <;> simp [pyNot, Val.truth, pyTruth, Val.ofNat, hz, pure]
+
+theorem allzerosB_hex (m : Msg) (hl : m.length = 28) :
+    allzerosB (hex2binM m) = .val (decide (PyModeS.bin2int (slice 32 88 (hex2binM m)) = 0)) := by
+  simp [allzerosB, dataR_hex m hl]
+
+/-- the five `wrongstatus` literals of a register, in the `Val.num` form the generated code uses -/
+theorem ws_lit (d : Bits) (sb msb lsb : Nat) (h1 : 1 ≤ sb) (h2 : 1 ≤ msb) :
+    Gen.py_common.wrongstatus (Val.ofBits d) (.num (sb : Rat)) (.num (msb : Rat)) (.num (lsb : Rat)) =
+      (PyModeS.wrongstatus d sb msb lsb >>= fun b => .val (.bool b)) :=
+  wrongstatus_ofBits d sb msb lsb h1 h2
+
+
+/-! ### tactics shared by the per-module tie files -/
+
+set_option hygiene false in
+/-- common opening of a Comm-B field decoder: both sides read the MB field `d` of 56 bits -/
+macro "commb_open" m:ident h:ident hl:ident : tactic => `(tactic|
+  (simp only [data_str, Res.bind_val, hex2bin_data $m $h $hl, dataR_hex $m $hl]
+   have hd := mb_length $m $hl
+   generalize slice 32 88 (hex2binM $m) = d at hd ⊢))
+
+set_option hygiene false in
+/-- evaluate both sides on the symbolic 56-bit field and finish by case analysis and field arithmetic -/
+macro "commb_close" : tactic => `(tactic|
+  (simp [sfield, ufield, wrap360, idxR_of_lt, hd, bin2intR_slice_of_lt, Val.ofNat, Val.ofOptRat]
+   try (split_ifs <;> simp_all [Val.ofOptRat] <;> (try push_cast) <;> (try ring_nf) <;> (try linarith))
+   all_goals (try (split_ifs <;> (try ring_nf at *) <;> (try linarith)))))
+
+/-- case analysis on an opaque `Res Bool` subterm occurring on both sides (`wrongstatus …`):
+    closes the finished branches, leaves the one that continues -/
+macro "res_bool" t:term : tactic => `(tactic|
+  (generalize $t = r
+   rcases r with ((_ | _) | _ | _)
+   all_goals try (simp only [Res.bind_val, Res.bind_rte, Res.bind_exc, Res.pure_eq, pyTruth_bool, Bool.not_true,
+     Bool.not_false, Bool.false_eq_true, if_true, if_false])))
+
+/-- case analysis on an opaque `Res (Option Rat)` subterm occurring on both sides (a field decoder) -/
+macro "res_opt" t:term : tactic => `(tactic|
+  (generalize $t = r
+   rcases r with ((_ | _) | _ | _)
+   all_goals try (simp only [Res.bind_val, Res.bind_rte, Res.bind_exc, Res.pure_eq, Val.ofOptRat, optAbsGt, optGt,
+     pyIsNot_none_num, pyIsNot_none_none, pyTruth_bool, pyAbs_num, pyGt_num, pySub_num, Bool.false_eq_true,
+     if_true, if_false, rabs, gt_iff_lt])))
+
 
 end PyModeS.Tie
